@@ -191,6 +191,20 @@ def zerop (a : Rat) : Bool := decide (a = 0)
 def plusp (a : Rat) : Bool := decide (0 < a)
 def minusp (a : Rat) : Bool := decide (a < 0)
 
+/-! ### the remaining bitwise operators of the language, all derived from `land lor lxor lnot` -/
+
+/-- `(logeqv a b)`: bitwise equivalence (XNOR) -/
+def leqv (a b : Int) : Int := lnot (lxor a b)
+def leqvAll (xs : List Int) : Int := xs.foldl leqv (-1)
+def lognand (a b : Int) : Int := lnot (land a b)
+def lognor (a b : Int) : Int := lnot (lor a b)
+def logandc1 (a b : Int) : Int := land (lnot a) b
+def logandc2 (a b : Int) : Int := land a (lnot b)
+def logorc1 (a b : Int) : Int := lor (lnot a) b
+def logorc2 (a b : Int) : Int := lor a (lnot b)
+/-- `(logtest a b)`: do the two integers have a 1 bit in common -/
+def logtest (a b : Int) : Bool := land a b != 0
+
 /-! ### IEEE-754 binary32 / binary64 bit patterns as exact rationals (finite values only) -/
 
 def pow2 (e : Int) : Rat := if 0 ≤ e then ((2 : Rat) ^ e.toNat) else 1 / ((2 : Rat) ^ (-e).toNat)
@@ -373,5 +387,148 @@ def gcdLoop : Nat → Int → Int → Int
   | fuel + 1, x, y => if y = 0 then x else gcdLoop fuel y (Int.tmod x y)
 
 end Impl
+
+/-! ### one call of an operator (the table the driver executes) and histories of calls -/
+
+/-- what a call returns -/
+inductive Outcome where
+  | vals (vs : List Rat)     -- the returned numbers (one; quotient and remainder for the rounding divisions)
+  | bool (b : Bool)
+  | err (e : Err)
+  | bad (why : String)       -- not a call of the protocol (a machinery error, never a verdict)
+
+namespace Outcome
+def ofRat (r : Rat) : Outcome := .vals [r]
+def ofInt (i : Int) : Outcome := .vals [(i : Rat)]
+def ofExRat : Except Err Rat → Outcome
+  | .ok r => .vals [r]
+  | .error e => .err e
+def ofExQR : Except Err (Int × Rat) → Outcome
+  | .ok (q, r) => .vals [(q : Rat), r]
+  | .error e => .err e
+def ofExBool : Except Err Bool → Outcome
+  | .ok b => .bool b
+  | .error e => .err e
+/-- the numbers a call hands back (they are what a program can keep in variables) -/
+def values : Outcome → List Rat
+  | .vals vs => vs
+  | _ => []
+end Outcome
+
+/-- all operands integers? -/
+def ints (xs : List Rat) : Option (List Int) :=
+  xs.mapM (fun r => if r.den = 1 then some r.num else none)
+
+/-- integer-only n-ary operators reject a ratio with a type-error -/
+def onInts (xs : List Rat) (f : List Int → Int) : Outcome :=
+  match ints xs with
+  | some is => .ofInt (f is)
+  | none => .err .typeErr
+
+def onInt2 (a b : Rat) (f : Int → Int → Int) : Outcome :=
+  if a.den = 1 ∧ b.den = 1 then .ofInt (f a.num b.num) else .err .typeErr
+
+/-- `(op x₁ … xₙ)` on exact values -/
+def apply (op : String) (xs : List Rat) : Outcome :=
+  match op, xs with
+  | "+", xs => .ofRat (addAll xs)
+  | "*", xs => .ofRat (mulAll xs)
+  | "-", xs => .ofExRat (subAll xs)
+  | "/", xs => .ofExRat (divAll xs)
+  | "1+", [a] => .ofRat (add a 1)
+  | "1-", [a] => .ofRat (sub a 1)
+  | "incf", [a] => .ofRat (add a 1)
+  | "incf", [a, b] => .ofRat (add a b)
+  | "decf", [a] => .ofRat (sub a 1)
+  | "decf", [a, b] => .ofRat (sub a b)
+  | "abs", [a] => .ofRat (absR a)
+  | "floor", [a] => .ofExQR (floorDiv a 1)
+  | "floor", [a, b] => .ofExQR (floorDiv a b)
+  | "ceiling", [a] => .ofExQR (ceilDiv a 1)
+  | "ceiling", [a, b] => .ofExQR (ceilDiv a b)
+  | "truncate", [a] => .ofExQR (truncDiv a 1)
+  | "truncate", [a, b] => .ofExQR (truncDiv a b)
+  | "round", [a] => .ofExQR (roundDiv a 1)
+  | "round", [a, b] => .ofExQR (roundDiv a b)
+  | "mod", [a, b] => .ofExRat (modR a b)
+  | "rem", [a, b] => .ofExRat (remR a b)
+  | "gcd", xs => onInts xs gcdAll
+  | "lcm", xs => onInts xs lcmAll
+  | "isqrt", [a] => if a.den = 1 then .ofExRat ((isqrt a.num).map (fun i => (i : Rat))) else .err .typeErr
+  | "ash", [a, k] => onInt2 a k ash
+  | "expt", [b, n] => if n.den = 1 then .ofExRat (expt b n.num) else .bad "expt"
+  | "logand", xs => onInts xs landAll
+  | "logior", xs => onInts xs lorAll
+  | "logxor", xs => onInts xs lxorAll
+  | "logeqv", xs => onInts xs leqvAll
+  | "lognot", [a] => if a.den = 1 then .ofInt (lnot a.num) else .err .typeErr
+  | "lognand", [a, b] => onInt2 a b lognand
+  | "lognor", [a, b] => onInt2 a b lognor
+  | "logandc1", [a, b] => onInt2 a b logandc1
+  | "logandc2", [a, b] => onInt2 a b logandc2
+  | "logorc1", [a, b] => onInt2 a b logorc1
+  | "logorc2", [a, b] => onInt2 a b logorc2
+  | "logtest", [a, b] => if a.den = 1 ∧ b.den = 1 then .bool (logtest a.num b.num) else .err .typeErr
+  | "LessThan", [a, b] => .bool (lt a b)
+  | "<", xs => .bool (chain lt xs)
+  | "<=", xs => .bool (chain le xs)
+  | ">", xs => .bool (chain gt xs)
+  | ">=", xs => .bool (chain ge xs)
+  | "=", xs => .bool (chain eq xs)
+  | "/=", xs => .bool (allDiff xs)
+  | "min", xs => .ofExRat (minAll xs)
+  | "max", xs => .ofExRat (maxAll xs)
+  | "zerop", [a] => .bool (zerop a)
+  | "plusp", [a] => .bool (plusp a)
+  | "minusp", [a] => .bool (minusp a)
+  | "logcount", [a] => if a.den = 1 then .ofInt (logcount a.num) else .err .typeErr
+  | "integer-length", [a] => if a.den = 1 then .ofInt (integerLength a.num) else .err .typeErr
+  | "logbitp", [i, a] => if i.den = 1 ∧ a.den = 1 then .ofExBool (logbitp i.num a.num) else .err .typeErr
+  | "evenp", [a] => if a.den = 1 then .bool (evenp a.num) else .err .typeErr
+  | "oddp", [a] => if a.den = 1 then .bool (oddp a.num) else .err .typeErr
+  | "signum", [a] => .ofInt (signum a)
+  | "numerator", [a] => .ofInt (numerator a)
+  | "denominator", [a] => .ofInt (denominator a)
+  | "rational", [a] => .ofRat a
+  | "value", [a] => .ofRat a
+  | _, _ => .bad "op"
+
+/-- an argument of a call inside a history: a new operand, or a value kept from earlier (an operand
+    or a result of an earlier call, by its position in the store) -/
+inductive Arg where
+  | lit (r : Rat)
+  | ref (i : Nat)
+
+structure Call where
+  op : String
+  args : List Arg
+
+def argVal (store : List Rat) : Arg → Option Rat
+  | .lit r => some r
+  | .ref i => store[i]?
+
+/-- the new operands of a call, in argument order -/
+def lits : List Arg → List Rat
+  | [] => []
+  | .lit r :: rest => r :: lits rest
+  | .ref _ :: rest => lits rest
+
+/-- one call of a history. Numbers are VALUES: the store (every operand and every numeric result so
+    far, each bound to its own variable) only grows; the new operands and then the results are
+    appended. A reference outside the store is a protocol error and leaves the store alone. -/
+def step (store : List Rat) (c : Call) : List Rat × Outcome :=
+  match c.args.mapM (argVal store) with
+  | none => (store, .bad "ref")
+  | some xs =>
+    let o := apply c.op xs
+    (store ++ lits c.args ++ o.values, o)
+
+/-- a history: calls in a row; returns the final store and the outcome of every call -/
+def run (store : List Rat) : List Call → List Rat × List Outcome
+  | [] => (store, [])
+  | c :: cs =>
+    let r := step store c
+    let rest := run r.1 cs
+    (rest.1, r.2 :: rest.2)
 
 end SlipVerif.Num
